@@ -236,6 +236,8 @@ def judge_single(call, chk, probe=None):
         for r in log:
             if r.get('act') == 'setx':
                 allowed |= {(nm, tn) for nm in call.get('exo', [])}
+        if call.get('drift_name'):
+            allowed.add((call['drift_name'], tn))  # (the user's own pass code moves it)
         bad = [c for c in diff_cells(snap, post) if c not in allowed]
         chk('frame/other-cells-untouched', not bad, {'changed': bad[:8]})
 
